@@ -64,6 +64,8 @@ class Config:
     use_cvc5 = True
     keep_smt2 = 3  # how many sample obligations keep their SMT-LIB text
     forall_range_check = True  # values.forall: ask the solver whether the range is empty before building the quantifier
+    ground_first = False  # obligations: try the quantifier-free part of the path condition first (State._check_ground)
+    rounding_hints = False  # int(n / t + 0.5): also state 2*t*q <= 2*n + t < 2*t*(q+1) (builtins_model._rounding_hint)
 
 
 def cvc5_check(smt2: str, timeout_s: int = 20) -> str:
@@ -162,6 +164,8 @@ class State:
 
     # ---- path condition
     def assume(self, f):
+        if isinstance(f, V.ForallGoal):
+            f = f.universal()
         if self.capture is not None:
             if isinstance(f, SBool):
                 f = f.e
@@ -192,6 +196,42 @@ class State:
         self.ex.solver_time += time.time() - t0
         self.ex.queries += 1
         return r, model
+
+    def _check_fresh(self, extra, timeout_ms):
+        """The same query as `_check`, in a fresh non-incremental solver."""
+        t0 = time.time()
+        s = z3.Solver()
+        s.set("timeout", timeout_ms)
+        s.add(*self.pc)
+        s.add(extra)
+        r = s.check()
+        model = s.model() if r == z3.sat else None
+        self.ex.solver_time += time.time() - t0
+        self.ex.queries += 1
+        return r, model
+
+    def _check_ground(self, extra, timeout_ms):
+        """Check `extra` against the quantifier-free part of the path condition only, in a fresh (non-incremental)
+        solver.  Dropping assumptions can only lose proofs: an `unsat` here is an `unsat` of the whole query; any
+        other answer says nothing.  Used when the full query comes back unknown (quantified facts that the goal
+        does not need can keep the solver busy), or first when the contract asks for it (`ground_first`)."""
+        t0 = time.time()
+        cache = self.__dict__.setdefault("_qf_cache", {})
+        ground = []
+        for f in self.pc:
+            k = f.get_id()
+            if k not in cache:
+                cache[k] = not _has_quantifier(f)
+            if cache[k]:
+                ground.append(f)
+        s = z3.Solver()
+        s.set("timeout", timeout_ms)
+        s.add(*ground)
+        s.add(extra)
+        r = s.check()
+        self.ex.solver_time += time.time() - t0
+        self.ex.queries += 1
+        return r
 
     def path_key(self):
         return tuple(d[0] for d in self.decisions[: self.pos])
@@ -254,6 +294,16 @@ class State:
     # ---- obligations
     def oblige(self, name, formula, kind="post"):
         """Record and check `pc => formula`; afterwards assume it."""
+        if isinstance(formula, V.ForallGoal):
+            g = formula
+            if isinstance(g.lo, int) and isinstance(g.hi, int):
+                return self.oblige(name, g.universal(), kind)
+            j0 = self.fresh_int("any")  # universal generalisation: j0 occurs nowhere else
+            if g.hints is not None:
+                g.hints(j0)
+            ob = self.oblige(name, V.implies(V.both(g.lo <= j0, j0 < g.hi), g.body(j0)), kind)
+            self.assume(g.universal())
+            return ob
         key = (name, self.path_key())
         if isinstance(formula, SBool):
             formula = formula.e
@@ -269,8 +319,18 @@ class State:
             t0 = time.time()
             if z3.is_true(formula):
                 ob.status = "discharged"
+            elif getattr(self.cfg, "ground_first", False) and self._check_ground(z3.Not(formula), min(3000, self.cfg.oblig_timeout_ms)) == z3.unsat:
+                ob.status, ob.backend = "discharged", "z3-ground"
             else:
                 r, model = self._check(z3.Not(formula), self.cfg.oblig_timeout_ms)
+                if r == z3.unknown:
+                    # the incremental (push/pop) solver gave up: ask a fresh, non-incremental one (it preprocesses
+                    # the whole query), then one that sees only the quantifier-free part of the path condition
+                    r, model = self._check_fresh(z3.Not(formula), self.cfg.oblig_timeout_ms)
+                    if r != z3.unknown:
+                        ob.backend = "z3-fresh"
+                    elif self._check_ground(z3.Not(formula), self.cfg.oblig_timeout_ms) == z3.unsat:
+                        r, ob.backend = z3.unsat, "z3-ground"
                 if r == z3.unsat:
                     ob.status = "discharged"
                 elif r == z3.sat:
@@ -394,6 +454,20 @@ class State:
     # ---- ghost trace
     def event(self, *ev):
         self.trace.append(ev)
+
+
+def _has_quantifier(e):
+    seen = set()
+    todo = [e]
+    while todo:
+        x = todo.pop()
+        if x.get_id() in seen:
+            continue
+        seen.add(x.get_id())
+        if z3.is_quantifier(x):
+            return True
+        todo.extend(x.children())
+    return False
 
 
 def _short(f, n=300):
